@@ -10,6 +10,7 @@ mod post;
 mod refstore;
 mod rng;
 mod runner;
+mod sched;
 mod seam;
 mod treecheck;
 mod world;
